@@ -21,11 +21,13 @@ PROP = dict(
              "the same units: leaves string/int/bool/Logger/provider pointer/interfaces, exported or unexported, untagged 22%, foreign 14%, "
              "malformed 4%, custom tag 10% (half of the custom tag texts are STRUCTURED: value + 1-3 named arguments, each a flag, 1-3 words, one bracketed group or 2-4 items mixing words and bracketed groups; groups in () [] {} hold 1-5 words separated by blanks / commas, nested up to depth 2 — oracle scan-custom-args reads value and arguments off the tag text with the harness' own reader, not the library's parser), recognised 50% over wire/func/value/prop/prefix/logger (with duplicates, shadowed prop, extra "
              "arguments); structs embedded untagged (descended), embedded tagged, embedded pointer, named, ScanGrp, ConfigurationProperties marker; "
+             "a third of the shapes run once more (mode G+<pos><ret>: the generated nesting, 1/3 a fresh re-nesting) next to an EXTRA user InstantiationAware post-processor that is ahead of the recording processor in the chain (priority-ordered with the smallest Order = ahead of every built-in processor, or ordered with the largest Order = behind the built-in ones) and whose PostProcessProperties returns nil / the list it got / a reversed copy / an empty non-nil list / only the built-in-tag properties / only the custom-tag properties / a content-chosen part; compared with the flattened run WITHOUT the extra processor, all oracles unchanged (label extra-returns-without-custom-fields: the returned list leaves out fields the recorder must be handed); "
              "non-trivial = at least one embedded level and at least one recognised exported unit; distinct = distinct scenario lines",
         trusted_base=COMMON_TB + ["reflect.StructOf builds types that reflect treats like compiled ones (checked against 4 compiled static types in the corpus)",
                                   "the harness recovers field paths from the real Holder chain by address (zero-size embedded structs have no fields, so no ambiguity)"],
         assumptions=["the component is registered by pointer (addressable root), as the container requires",
                      "C11_flatten_props: ExtractHandlers look at the field's declaration/value, not at its holder chain (proved for the built-in ones)",
                      "a failed start (Run error) is compared by outcome only: where population stops depends on Go map order",
-                     "a user tag processor filters the properties it is handed by Tag, as every processor of the library does (the container hands every processor all properties of the component)"],
+                     "a user tag processor filters the properties it is handed by Tag, as every processor of the library does (the container hands every processor all properties of the component)",
+                     "C11_code_handed reads the regenerated ResolveAfterInstantiation with every processor of the chain InstantiationAware and answering true to PostProcessAfterInstantiation (a skipped processor is handed nothing); the value PostProcessProperties returns is arbitrary"],
     )
